@@ -40,8 +40,8 @@ BlobDocs == UNION {{[kind |-> "blob", version |-> "ok", stmts |-> [i \in DOMAIN 
 Paths  == GoodScopes \cup {"unlistedPrefix", "unlistedExt", "unlistedDomainCase", "unlistedOther", "unlistedPort",
                             "malformedNoAt", "malformedTagOnly", "malformedTagDigest", "malformedUpper", "malformedEmpty"}
 AbsPath(p) == IF p \in GoodScopes THEN p ELSE IF p \in {"unlistedPrefix", "unlistedExt", "unlistedDomainCase", "unlistedOther", "unlistedPort"} THEN "unlisted" ELSE "malformed"
-BNames == {"n1", "n2", "n3", "", "blank", "unlistedName", "caseName"}
-AbsBName(b) == IF b \in {"unlistedName", "caseName"} THEN "nX" ELSE b
+BNames == {"n1", "n2", "n3", "", "blank", "unlistedName", "caseName", "paddedName"}
+AbsBName(b) == IF b \in {"unlistedName", "caseName", "paddedName"} THEN "nX" ELSE b
 
 InputSpace == IF Kind = "oci" THEN [doc : OCIDocs, path : Paths, bname : {""}]
                               ELSE [doc : BlobDocs, path : {""}, bname : BNames]
